@@ -17,8 +17,10 @@ RULE = ('(a) dispatcher level: for a concrete instance of each of the 8 listed s
         'must accept exactly what the model accepts and the text read through the returned handle must be the content. (b) end to end: '
         'the full product {path, .gz path, open text file, open binary file, StringIO, BytesIO, gzip text stream, gzip binary stream, '
         'junk...} x {load_minimal_ontology, load_ontology, SimpleHpoaDiseaseLoader.load, SimilarityContainer.from_csv} x several '
-        'contents (ASCII and non-ASCII; the SAME path is overwritten with new content between loads; directory names containing '
-        '".gz"), canonical dump of the loaded object must equal the dump obtained from the plain path; junk -> ValueError. Writers: '
+        'contents (ASCII, non-ASCII, and one starting with a byte-order mark; the SAME path is overwritten with new content between '
+        'loads; directory names containing ".gz") x 3 layouts of the .gz file (one member, three concatenated members, bgzip-style '
+        'blocks): the outcome - canonical dump of the loaded object, or the exception type - must equal the outcome for the plain '
+        'path; junk -> ValueError. Writers: '
         '{path, .gz path, text file stream, binary file stream, junk} x {SimilarityContainer.to_csv, AnnotationIcContainer.to_csv}: bytes '
         'written (gunzipped, `created` stamp masked) must be identical. Every case probes one (function, kind, content) cell; distinct by '
         'that triple.')
@@ -46,14 +48,25 @@ class World:
         os.makedirs(self.sub)
         self.opened = []
 
-    def put(self, text, suffix):
+    def put(self, text, suffix, layout='single'):
+        """layout of the .gz file: 'single' member; 'multi' = three concatenated members (`cat a.gz b.gz c.gz`, appended batches);
+        'bgzf' = many small members closed by an empty one (what bgzip writes).  All inflate to the same bytes."""
         self.plain = os.path.join(self.sub, 'content' + suffix)
         self.gz = os.path.join(self.sub, 'content' + suffix + '.gz')
         data = text.encode('utf-8')
         with open(self.plain, 'wb') as fh:
             fh.write(data)
-        with gzip.open(self.gz, 'wb') as fh:
-            fh.write(data)
+        if layout == 'single':
+            chunks = [data]
+        elif layout == 'multi':
+            a, b = len(data) // 3, 2 * len(data) // 3
+            chunks = [data[:a], data[a:b], data[b:]]
+        else:
+            chunks = [data[i:i + 97] for i in range(0, len(data), 97)] + [b'']
+        with open(self.gz, 'wb') as fh:
+            for ch in chunks:
+                fh.write(gzip.compress(ch))
+        assert gzip.open(self.gz, 'rb').read() == data
         self.text, self.data = text, data
 
     def source(self, kind):
@@ -182,11 +195,14 @@ def readers():
 
 
 def contents():
+    """the last content of each kind starts with a byte-order mark: whatever a reader makes of it (a result or an error), it must make
+    the same of it for every source kind"""
     return {
         'json': [('ascii', obo_doc('Phenotypic abnormality', '2024-01-01', 3)), ('non-ascii', obo_doc('Anomalie phénotypique 表現型 😀', '2023-10-09', 5)),
-                 ('ascii-2', obo_doc('Another label', '2022-02-02', 2))],
-        'hpoa': [('ascii', hpoa_text('DISEASE', 5)), ('non-ascii', hpoa_text('MALADIE é ß 病', 7)), ('ascii-2', hpoa_text('OTHER', 3))],
-        'csv': [('a', csv_text('first', 4)), ('b', csv_text('second é', 6)), ('c', csv_text('third', 2))],
+                 ('ascii-2', obo_doc('Another label', '2022-02-02', 2)), ('bom', '\ufeff' + obo_doc('With BOM é', '2021-01-01', 2))],
+        'hpoa': [('ascii', hpoa_text('DISEASE', 5)), ('non-ascii', hpoa_text('MALADIE é ß 病', 7)), ('ascii-2', hpoa_text('OTHER', 3)),
+                 ('bom', '\ufeff' + hpoa_text('BOM é', 4))],
+        'csv': [('a', csv_text('first', 4)), ('b', csv_text('second é', 6)), ('c', csv_text('third', 2)), ('bom', '\ufeff' + csv_text('bom', 3))],
     }
 
 
@@ -215,33 +231,41 @@ def dispatcher_level(ctx, w):
     w.close()
 
 
+GZ_KINDS = ('gzPath', 'gzipText', 'gzipBinary')
+
+
+def outcome_of(fn, src):
+    try:
+        with warnings.catch_warnings():
+            warnings.simplefilter('ignore')
+            return ('ok', fn(src))
+    except Exception as e:  # noqa
+        return ('raises', type(e).__name__)
+
+
 def reader_product(ctx, w):
     rd = readers()
     cont = contents()
     for fname, (fn, ctype) in rd.items():
         for tag, text in cont[ctype]:
-            w.put(text, '.' + ctype)            # the same file names are overwritten for every content
-            try:
-                with warnings.catch_warnings():
-                    warnings.simplefilter('ignore')
-                    ref = fn(w.source('path'))          # reference: the plain path
-            except Exception as e:  # noqa
-                ctx.violation(f'{fname}:reference-raises', {'case': {'kind': 'reader', 'function': fname, 'content': tag}, 'impl': f'{type(e).__name__}: {e}'})
-                continue
-            for kind in KINDS:
-                ctx.case(['read', fname, kind, tag], True, 'readers x kinds x contents', sample={'function': fname, 'source': kind, 'content': tag})
-                try:
-                    with warnings.catch_warnings():
-                        warnings.simplefilter('ignore')
-                        got = fn(w.source(kind))
-                    impl = 'same' if got == ref else 'different'
-                except Exception as e:  # noqa
-                    impl, got = f'raises {type(e).__name__}: {e}', None
-                w.close()
-                if impl != 'same':
-                    ctx.violation(f'{fname}:{kind}', {'case': {'kind': 'reader', 'function': fname, 'source': kind, 'content': tag},
-                                                      'impl': impl if got is None else {'got': str(got)[:600], 'reference': str(ref)[:600]},
-                                                      'theorem': 'Hpv.Props.C16.same_result'})
+            ref = None
+            for layout in ('single', 'multi', 'bgzf'):
+                w.put(text, '.' + ctype, layout)            # the same file names are overwritten for every content
+                if ref is None:
+                    ref = outcome_of(fn, w.source('path'))          # reference: the plain path
+                    if ref[0] == 'raises' and tag != 'bom':
+                        ctx.violation(f'{fname}:reference-raises', {'case': {'kind': 'reader', 'function': fname, 'content': tag}, 'impl': ref[1]})
+                        break
+                for kind in (KINDS if layout == 'single' else GZ_KINDS):
+                    ctx.case(['read', fname, kind, tag, layout], True, 'readers x kinds x contents x gz layouts',
+                             sample={'function': fname, 'source': kind, 'content': tag, 'gz_layout': layout})
+                    got = outcome_of(fn, w.source(kind))
+                    w.close()
+                    if got != ref:
+                        ctx.violation(f'{fname}:{kind}' + ('' if layout == 'single' else f':{layout}'),
+                                      {'case': {'kind': 'reader', 'function': fname, 'source': kind, 'content': tag, 'gz_layout': layout},
+                                       'impl': {'got': str(got)[:600], 'reference(plain path)': str(ref)[:600]},
+                                       'theorem': 'Hpv.Props.C16.same_result'})
             for name, obj in w.junk():
                 ctx.case(['read', fname, name, tag], True, 'readers x junk')
                 try:
@@ -333,7 +357,7 @@ def run(ctx):
             reader_product(ctx, w)
     finally:
         w.cleanup()
-    ctx.exhaustive['the full product of source kinds (8 listed + 8 junk) x 4 readers x 3 contents, and 4 targets (+ junk) x 2 writers x 3 contents'] = True
+    ctx.exhaustive['the full product of source kinds (8 listed + 8 junk) x 4 readers x 4 contents (x 3 gz layouts for the gz-backed kinds), and 4 targets (+ junk) x 2 writers x 3 contents'] = True
 
 
 def replay(ctx, data):
